@@ -17,6 +17,7 @@ UNIT = dict(
         "ReconnectState::set_state": dict(file="state", rules=[("addarg", ["store"], TR, 1)]),
         "ReconnectState::mark_disconnected": dict(file="state", rules=[("addarg", ["set_state"], TR, 1)]),
         "ReconnectState::mark_reconnecting": dict(file="state", rules=[("addarg", ["set_state"], TR, 1)]),
+        "ReconnectPolicy::clone@Clone": dict(file="policy", rules=[("sub", "R10-arc-clone", r"\bc\.clone\(\)", "Arc::clone(c)", 1)]),
         "ReconnectPolicy::delay_for_attempt": dict(file="policy"),
         "ReconnectConfig::should_reconnect": dict(file="config", rules=[("sub", "R6-closure-call", r"\bpredicate\(error\)", "predicate.vx_call(error)", 1)]),
         "ReconnectService::poll_ready@Service": dict(rules=[("R10p", "ReconnectError::ServiceError")]),
